@@ -24,8 +24,9 @@ ASSUMPTIONS = ["texts contain no ESC; a RESULT text containing ESC '[' (replace 
                "characters are unchanged and the padding carries {bg} only (NOT the other shared attributes); otherwise "
                "every original character loses its (non-shared) bg and the padding carries exactly sh. The clause is met "
                "with equality only in the no-shared-bg branch; no result shows formatting no character had",
-               "split is called with an explicit separator ('' included: ValueError like str) or a regex that does not "
-               "match the empty string, without maxsplit (the statement names explicit separators and regexes). Outside it "
+               "split is called with an explicit separator ('' included: ValueError like str) or a regex (capture groups are "
+               "ignored as documented: pieces = text between the matches of the whole pattern; = re.split when there are no "
+               "groups; empty matches, back-references, inline flags included), without maxsplit (the statement names explicit separators and regexes). Outside it "
                "and not checked: split() with sep=None keeps leading/trailing empty pieces, maxsplit raises "
                "NotImplementedError",
                "fill characters are one-character strs, widths are ints (anything else is str's own TypeError)",
@@ -125,7 +126,11 @@ def arg_pool(name, t):
         seps = sorted({",", "X", " ", "aa", "a", ",,", "b,", "zz", "\n", "ab", "\r\n", ".", "[|]", "a|b", t, t[:1], t[-1:], t[1:3]} - {""})
         return [(s,) for s in seps] + [("",)]            # '' raises ValueError, as str.split('')
     if name == "split_regex":
-        return [(p,) for p in (",", ",+", r"\s+", "[,X]", "a|b", r"\d", r"l\d", "X{2}", r"\n|\r", "a(?=a)", ".", "[|]", r"\.")]
+        return [(p,) for p in (",", ",+", r"\s+", "[,X]", "a|b", r"\d", r"l\d", "X{2}", r"\n|\r", "a(?=a)", ".", "[|]", r"\.",
+                                # capture groups (ignored: the WHOLE match splits), back-references, named groups, conditional
+                                # groups, inline flags, look-ahead, empty matches
+                                r"(.)\1", r"(a)(b)\2", r"(?i)A", r"(?P<x>a)(?P=x)", r"(a)|b", r"(?:a)(b)?", r"a(?=b)", r"\b",
+                                r"(?m)^|$", r"(,)(?(1),|x)", r"(?i)(l)\d", r"([a-c])\1*")]
     if name == "splitlines":
         return [(), (False,), (True,)]
     if name in ("ljust", "rjust"):
@@ -239,7 +244,16 @@ def call_str(c):
     s = "".join(t for t, _ in c["f"])
     name, args = c["m"], c["args"]
     if name == "split_regex":
-        return re.split(args[0], s)
+        # documented: "Capture groups are ignored in regex, the whole pattern is matched and used to split" - the pieces
+        # are the text between consecutive matches of the whole pattern; without groups that is re.split
+        out, pos = [], 0
+        for m in re.finditer(args[0], s):
+            out.append(s[pos:m.start()])
+            pos = m.end()
+        out.append(s[pos:])
+        if re.compile(args[0]).groups == 0 and out != re.split(args[0], s):
+            raise AssertionError("harness: complement of the matches differs from re.split for %r on %r" % (args[0], s))
+        return out
     if name == "join":
         return s.join("".join(t for t, _ in join_item_chunks(x, c["f"])) for x in args[0])
     return getattr(s, name)(*args)
